@@ -84,6 +84,10 @@ func authHook(ctx context.Context, engineReq any, check runtime.SecurityCheck) (
 		d = t.Plan.AuthDefault
 	}
 	switch d.Kind {
+	case "panic":
+		// user code may crash: whatever the router then answers, it must not treat the check as approved
+		s.event("AuthResult", "panic "+key)
+		panic("simulated authorization callback panic for " + key)
 	case "refuse":
 		s.event("AuthResult", fmt.Sprintf("refuse %d %s", d.Status, key))
 		se := &runtime.SecurityError{Message: "refused by the simulated authorization service", StatusCode: runtime.HttpStatusCode(d.Status)}
@@ -230,7 +234,7 @@ func controllerHook(ctl runtime.Controller, op string, ret any, args ...any) err
 	if sc.Err != "" {
 		return errors.New("simulated operation error")
 	}
-	if ret != nil && sc.RetJSON != "" {
+	if ret != nil && sc.RetJSON != "" && sc.RetJSON != "null" {
 		json.Unmarshal([]byte(sc.RetJSON), ret)
 	}
 	return nil
